@@ -156,7 +156,10 @@ pub fn cancel_case<D: Distance>(spec: &HistorySpec, same_txn: bool, st: &mut Cas
     let (total, _) = attempt(None, st)?;
     let total = total.ok_or_else(|| Fail::Infra("counting run did not complete".into()))?;
     st.add("polls_of_complete_build", total);
-    let stride = if total <= 3000 { 1 } else { (total / 1500).max(1) };
+    // every n when that is affordable; otherwise every n below 200 and then a stride chosen so that the
+    // work (~ T^2 / 2 polls, each cancelled build runs up to its fault point) stays bounded per state
+    let budget: u64 = std::env::var("VERIF_C10_POLL_BUDGET").ok().and_then(|s| s.parse().ok()).unwrap_or(800_000);
+    let stride = (total * total / budget).max(1);
     let mut n = 0u64;
     while n <= total {
         let (_, partial) = attempt(Some(n), st)?;
@@ -509,7 +512,7 @@ pub fn run_c10(tier: Tier) -> i32 {
         tier,
         "fault_enumeration",
         "generated states (a built index with pending insertions and deletions, 7 metrics, pools 1-8); per state a counting run \
-         gives T polls of the complete build, then cancel_at = n for EVERY n in 0..=T (stratified above 3000); LMDB map-size \
+         gives T polls of the complete build, then cancel_at = n for EVERY n in 0..=T (every n below 200, then stride T^2/800000 when T > ~900); LMDB map-size \
          ladder from 32 KiB in x1.5 steps; temp dir = missing path / regular file; fd and temp-dir census over blocks of \
          successful / cancelled / failed builds. Oracle: Err(BuildCancelled) (Ok only if the callback was never polled again and \
          the result passes walker + exact search), MapFull / io error kinds, never a panic, abort restores the raw dump byte for \
